@@ -4,7 +4,7 @@ from __future__ import annotations
 import ast
 
 from ..fold import fold_expr, need
-from ..interp import Analyzer, State, analyze
+from ..interp import Analyzer, State, analyze, truth
 from ..model import AnalysisError
 from ..report import Ctx, where
 from ..shape import Shapes, TOP
@@ -107,6 +107,7 @@ def sh4(ctx: Ctx, shapes: Shapes):
             for (obj, attr), v in st.heap.items():
                 if obj == rv and attr != "_cache":
                     init.heap[(S, attr)] = v
+            _assembly(ctx, rule, fi, r, st, node, entries, init.heap.get((S, "_netloc")), results)
             for k, ev in entries.items():
                 lazy = _lazy_values(model, methods, fillers, k, init)
                 if lazy is None:
@@ -141,6 +142,31 @@ def sh4(ctx: Ctx, shapes: Shapes):
             else:
                 ctx.ob(rule, fi.qual, f"cache[{k!r}]", True, where=where(fi, node),
                        sample=f"{len(lst)} constructor exit state(s): {verdicts[0][0]}")
+
+
+def _assembly(ctx, rule, fi, r, st, node, entries, netloc, results):
+    """SH4b: the pre-filled userinfo / port entries are exactly the components the stored authority was assembled from."""
+    if netloc is None:
+        return
+    comps = None
+    if netloc[0] == "call" and netloc[1][0] == "global" and netloc[1][2] == "make_netloc" and len(netloc[2]) >= 4:
+        comps = dict(zip(("raw_user", "raw_password", "host", "explicit_port"), netloc[2][:4]))
+    elif netloc[0] == "fstr":
+        fm = [p[1] for p in netloc[1] if p[0] == "fmt"]
+        cs = [p[1] for p in netloc[1] if p[0] == "const"]
+        if len(fm) == 2 and cs == [":"]:
+            comps = {"raw_user": ("const", None), "raw_password": ("const", None), "host": fm[0], "explicit_port": fm[1]}
+    elif netloc[0] != "const":
+        comps = {"raw_user": ("const", None), "raw_password": ("const", None), "host": netloc, "explicit_port": ("const", None)}
+    if comps is None:
+        return
+    for k in ("raw_user", "raw_password", "explicit_port"):
+        if k not in entries:
+            continue
+        ok = entries[k] == comps[k] or (comps[k] == ("const", None) and truth(("cmp", "Is", entries[k], ("const", None)), st.facts) is True) \
+            or (entries[k] == ("const", None) and truth(("cmp", "Is", comps[k], ("const", None)), st.facts) is True)
+        bad = () if ok else (f"eager {show(entries[k])[:50]} but the authority is assembled from {show(comps[k])[:50]}",)
+        results.setdefault((k + " (assembly)", bad), []).append(("", [("pre-filled value is the component the authority was assembled from", ok)], node))
 
 
 def _cond_sig(facts, heap):
